@@ -1,18 +1,48 @@
-"""C01 — m_separated decides m-separation (boolean / raises), symmetric in X,Y, does not mutate G."""
+"""C01 — m_separated decides m-separation (boolean / raises), symmetric in X,Y, does not mutate G.
+
+Model side: bin/c01 = extracted C01/Run.run_case: per case the class flags [wf, acyclic, ancestral_und] of the graph and per
+query [model result (0/1/2=raises), query_ok, brute-force oracle msep_dec].  The flags are the boolean hypotheses of
+Props/C01.msep_correct_b, so a case with all flags true lies in the domain of the theorem (checked for every case).
+Implementation side: m_separated(G,X,Y,Z) and m_separated(G,Y,X,Z) on a MixedEdgeGraph built with the listed layers, under a
+per-case random insertion order of nodes and edges (the answer of a correct search does not depend on it; a wrong visited-set
+test does), snapshot of G before/after."""
 import itertools
 import graphs as gr
 
 PROP = "C01"
-RULE = ("every acyclic ADMG(n) and ancestral ANC(n) graph, each also with one layer absent, n<=3 quick / n<=4 thorough, "
-        "all pairwise-disjoint (X,Y,Z) with |X|,|Y|<=2; random n<=8 (quick) / n<=14 (thorough) with 30 queries; malformed stream "
-        "(cyclic directed layer). distinct by (canonical graph, layers); non-trivial = some query is connected and some separated")
-EXHAUSTIVE = {"quick": "ADMG(n), ANC(n) n<=3, all disjoint X,Y,Z with |X|,|Y|<=2", "thorough": "same, n<=4"}
-TRUSTED = ["networkx ancestors / in_edges / out_edges / neighbors taken at face value"]
-ASSUMPTIONS = ["default edge-type names", "int labels (label families: C15)"]
+RULE = ("quick: every acyclic ADMG(n) and ancestral ANC(n) graph n<=3, each also with one (empty) layer absent, all "
+        "pairwise-disjoint (X,Y,Z) with |X|,|Y|<=2, default and one random insertion order; every DAG(4) with all such queries "
+        "under two orders; every ADMG(4) and ANC(4) with all singleton X,Y and all Z under one random insertion order; "
+        "150 random graphs n<=8 with 30 random queries; cyclic directed layers n<=3 (must raise). "
+        "thorough: all of ADMG(n), ANC(n), n<=4, with the layer-absent variants, all queries |X|,|Y|<=2, two orders; 1500 random "
+        "graphs n<=14. distinct by (canonical graph, layers); non-trivial = some query is connected and some separated")
+EXHAUSTIVE = {"quick": "ADMG(n), ANC(n) n<=3: all disjoint X,Y,Z with |X|,|Y|<=2; DAG(4): same queries; "
+                       "ADMG(4), ANC(4): all singleton X,Y, all Z",
+              "thorough": "ADMG(n), ANC(n) n<=4, all disjoint X,Y,Z with |X|,|Y|<=2"}
+TRUSTED = ["networkx ancestors / in_edges / out_edges / neighbors / is_directed_acyclic_graph taken at face value",
+           "the deque discipline and pop-time visited marking of m_separated are abstracted into a reachability closure in "
+           "the model; that abstraction is what the correspondence (incl. random insertion orders) watches"]
+ASSUMPTIONS = ["default edge-type names", "int labels (label families: C15)", "X, Y, Z are sets of nodes of G",
+               "a missing layer is modelled as an empty layer"]
+TECHNIQUE = ("Coq proof (model = m-separation by m-connecting paths, unbounded: closure invariant + open-walk-to-path surgery) "
+             "+ extracted-model correspondence")
+LEVEL_TEXT = ("All clauses are unbounded Coq theorems about the model msep_model (one Gallina clause per branch of the two-deque "
+              "search of m_separated): msep_correct / msep_correct_false (for every graph with acyclic directed layer that has no "
+              "undirected edge or satisfies the ancestral condition, every X,Y,Z of nodes with X disjoint from Y and Z: answer True "
+              "<-> no m-connecting simple path, several edge types per pair allowed), msep_correct_walk (any acyclic directed layer: "
+              "True <-> no open walk), msep_symmetric (X,Y swap, incl. the raising case), msep_guard (raises <-> directed cycle), "
+              "msep_model_dec (model = brute-force oracle), msep_correct_b (the same under the boolean hypotheses the driver emits "
+              "per case). Shared lemmas proved here: msep_dec_spec (oracle reflects msep), open_walk_to_path, msep_sym. "
+              "The implementation is tied to the model by correspondence only (exhaustive n<=4 + random, both argument orders, "
+              "random insertion orders); non-mutation of G is observed, not proved.")
+LEVEL_NOTE = ("No bounded theorem is needed for C01. Print Assumptions: closed under the global context for all theorems. "
+              "Trusted: Coq kernel, extraction, harness; networkx primitives at face value; missing layer = empty layer.")
 ALL_LAYERS = ["directed", "bidirected", "undirected"]
+SPOT_N = 25
 
 
-def queries(nodes, maxxy=2, rng=None, limit=None):
+def queries(nodes, maxxy=2):
+    """all pairwise-disjoint (X,Y,Z), 1<=|X|,|Y|<=maxxy, up to the X/Y swap (the swap is run on the implementation)"""
     qs = []
     nodes = list(nodes)
     for rx in range(1, maxxy + 1):
@@ -25,8 +55,28 @@ def queries(nodes, maxxy=2, rng=None, limit=None):
                     rest2 = [v for v in rest if v not in Y]
                     for Z in gr.subsets(rest2):
                         qs.append([list(X), list(Y), Z])
-    if limit and len(qs) > limit:
-        qs = rng.sample(qs, limit)
+    return qs
+
+
+_QCACHE = {}
+
+
+def cached_queries(n, maxxy):
+    if (n, maxxy) not in _QCACHE:
+        _QCACHE[(n, maxxy)] = queries(range(n), maxxy)
+    return _QCACHE[(n, maxxy)]
+
+
+def random_queries(rng, nodes, k):
+    nodes = list(nodes)
+    qs = []
+    for _ in range(k):
+        vs = nodes[:]
+        rng.shuffle(vs)
+        nx_, ny = rng.randint(1, 2), rng.randint(1, 2)
+        X, Y, rest = vs[:nx_], vs[nx_:nx_ + ny], vs[nx_ + ny:]
+        nz = min(len(rest), rng.choice([0, 0, 1, 1, 2, 2, 3, 4, len(rest)]))
+        qs.append([sorted(X), sorted(Y), sorted(rest[:nz])])
     return qs
 
 
@@ -40,29 +90,53 @@ def layer_variants(g):
         yield ["bidirected", "undirected"]
 
 
+def _orders(rng, two):
+    """insertion orders to run a graph under: the canonical one (None) and/or a random one"""
+    return [None, rng.randrange(1 << 30)] if two else [rng.randrange(1 << 30)]
+
+
+def _case(kind, g, layers, qs, oracle, order):
+    c = {"kind": kind, "g": g, "layers": layers, "qs": qs, "oracle": oracle}
+    if order is not None:
+        c["_order"] = order
+    return c
+
+
 def gen_cases(tier, rng):
-    nmax = 3 if tier == "quick" else 4
-    for n in range(2, nmax + 1):
+    thorough = tier != "quick"
+    # --- exhaustive n <= 3 (quick) / n <= 4 (thorough): all queries, layer-absent variants, two insertion orders
+    for n in range(2, (4 if thorough else 3) + 1):
+        qs = cached_queries(n, 2)
         for src, kind in ((gr.enum_admg(n), "admg"), (gr.enum_anc(n), "anc")):
             for g in src:
                 if kind == "anc" and not g["U"]:
                     continue
-                qs = queries(g["V"])
                 for layers in layer_variants(g):
-                    yield {"kind": "%s%d" % (kind, n), "g": g, "layers": layers, "qs": qs, "oracle": True}
-    nr = 150 if tier == "quick" else 1500
-    for i in range(nr):
-        n = rng.randint(4, 8 if tier == "quick" else 14)
+                    for o in _orders(rng, True):
+                        yield _case("%s%d" % (kind, n), g, layers, qs, True, o)
+    if not thorough:
+        # --- quick, n = 4: every DAG with all queries under two orders; every ADMG / ANC graph with singleton X, Y, all Z
+        qs2, qs1 = cached_queries(4, 2), cached_queries(4, 1)
+        for g in gr.enum_dag(4):
+            for o in _orders(rng, True):
+                yield _case("dag4", g, ALL_LAYERS, qs2, True, o)
+        for src, kind in ((gr.enum_admg(4), "admg4s"), (gr.enum_anc(4), "anc4s")):
+            for g in src:
+                if kind == "anc4s" and not g["U"]:
+                    continue
+                yield _case(kind, g, ALL_LAYERS, qs1, True, rng.randrange(1 << 30))
+    # --- random larger graphs
+    for i in range(1500 if thorough else 150):
+        n = rng.randint(4, 14 if thorough else 8)
         kinds = gr.ADMG_KINDS if rng.random() < 0.5 else gr.ANC_KINDS
         g = gr.random_kinds_graph(rng, n, kinds, p_edge=rng.choice([0.15, 0.25, 0.4]),
                                   pred=gr.ancestral_und_ok if kinds is gr.ANC_KINDS else None)
-        qs = queries(g["V"], rng=rng, limit=30)
-        yield {"kind": "rand", "g": g, "layers": ALL_LAYERS, "qs": qs, "oracle": n <= 7}
-    # malformed: cyclic directed layer must raise
+        yield _case("rand", g, ALL_LAYERS, random_queries(rng, g["V"], 30), n <= 7, rng.randrange(1 << 30))
+    # --- malformed: cyclic directed layer must raise
     for n in (2, 3):
         for g in gr.enum_class(n, gr.ADMG_KINDS, acyclic=False):
             if not gr.is_acyclic(n, g["D"]):
-                yield {"kind": "cyclic", "g": g, "layers": ALL_LAYERS, "qs": queries(g["V"])[:4], "oracle": False}
+                yield _case("cyclic", g, ALL_LAYERS, cached_queries(n, 2)[:4], False, None)
 
 
 def encode(case):
@@ -70,36 +144,45 @@ def encode(case):
 
 
 def decode(case, v):
-    return {"res": [r[0] for r in v], "oracle": [r[1] for r in v] if case["oracle"] else None}
+    flags, per = v
+    return {"flags": flags, "res": [r[0] for r in per], "qok": [r[1] for r in per],
+            "oracle": [r[2] for r in per] if case["oracle"] else None}
 
 
 def run_impl(case):
+    import networkx as nx
     import pywhy_graphs.networkx as pywhy_nx
     M, lab, inv = gr.to_mixed(case["g"], case, layers=tuple(case["layers"]))
     before = gr.snapshot(M)
     res, sym = [], []
+
+    def call(A, B, Z):
+        try:
+            return int(bool(pywhy_nx.m_separated(M, {lab(v) for v in A}, {lab(v) for v in B}, {lab(v) for v in Z})))
+        except Exception as e:  # noqa
+            return 2 if isinstance(e, nx.NetworkXError) else "exc:" + type(e).__name__
     for X, Y, Z in case["qs"]:
-        def call(A, B):
-            try:
-                return int(bool(pywhy_nx.m_separated(M, {lab(v) for v in A}, {lab(v) for v in B}, {lab(v) for v in Z})))
-            except Exception as e:  # noqa
-                import networkx as nx
-                return 2 if isinstance(e, nx.NetworkXError) else "exc:" + type(e).__name__
-        res.append(call(X, Y))
-        sym.append(call(Y, X))
+        res.append(call(X, Y, Z))
+        sym.append(call(Y, X, Z))
     return {"res": res, "sym": sym, "mutated": gr.snapshot(M) != before}
 
 
 def compare(case, impl, model):
     if "exc" in impl:
         return "exception"
+    # the generated case must lie in the domain of the theorem (boolean hypotheses of msep_correct_b)
+    want = [1, 0, 1] if case["kind"] == "cyclic" else [1, 1, 1]
+    if model["flags"][:2] != want[:2] or (case["kind"] != "cyclic" and model["flags"][2] != 1):
+        return "domain-flags"
+    if any(q != 1 for q in model["qok"]):
+        return "query-domain"
     if impl["mutated"]:
         return "argument-mutated"
     if impl["res"] != model["res"]:
         return "boolean"
     if impl["sym"] != impl["res"]:
         return "symmetry"
-    if model["oracle"] is not None and model["oracle"] != model["res"] and 2 not in model["res"]:
+    if model["oracle"] is not None and 2 not in model["res"] and model["oracle"] != model["res"]:
         return "model-vs-oracle"
     return None
 
